@@ -1,6 +1,8 @@
 import Driver.Proto
 import PqModel.Stats
 import PqModel.LevelStats
+import PqModel.StatsDecimal
+import PqModel.StatsRecord
 
 /-! Ops of C05 (statistics / page indexes). Numeric values travel as unsigned decimal BIT PATTERNS
     (`i32 4294967291` is -5; `f32 2143289344` is a NaN), byte strings as hex (`e` = empty string, `-` = empty list).
@@ -15,6 +17,13 @@ import PqModel.LevelStats
     c05.index <kind> <lim> <pages>    -> ok <order> <mins> <maxs>     ColumnIndexer (pages: min:max or n; also flba<size>, be128)
     c05.fold <kind> <pages>           -> ok none | ok <min> <max>     recordPageStats chunk fold
     c05.hist <maxLevel> <pages>       -> ok <chunk histogram> <flat page histograms>   level histograms
+    c05.order dec <values>            -> ok <-1|0|1>       orderOfDecimalBytes
+    c05.index dec <lim> <pages>       -> ok <order> <mins> <maxs>     decimalColumnIndexer (lim ignored)
+    c05.bounds dec|decd <values>      -> decimalPage.Bounds / decimalDictionary.Bounds (literal mirrors)
+    c05.record <kind> <pages>         -> ok <index> <null counts> <chunk min:max|none> <chunk nulls>   writerRecord
+                                         pages separated by `;`, values by `,`, `n` = null
+    c05.levels <maxDef> <maxRep> <entries>  -> ok <numValues> <numNulls> <numRows> <defHist> <repHist> <unencoded>
+                                         entries `def:rep:hex|n` separated by `,`
     kinds: i32 i64 u32 u64 f32 f64 | bytes flba dec int96 (hex) | bool -/
 namespace Driver.Ops.C05
 open Driver PqModel PqModel.Stats
@@ -69,6 +78,24 @@ def parsePage? {α} (p : String → Option α) (s : String) : Option (Option (α
 
 def showNat (w : Nat) (b : BitVec w) : String := toString b.toNat
 
+/-- a value or `n` (null) -/
+def parseOpt? {α} (p : String → Option α) (s : String) : Option (Option α) :=
+  if s == "n" then some none else (p s).map some
+
+def showRecord {α} (f : α → String) (r : ChunkRecord α) : String :=
+  let e := fun (p : Option (α × α)) => match p with | none => "n" | some (a, b) => s!"{f a}:{f b}"
+  let chunk := match r.chunk with | none => "none" | some (a, b) => s!"{f a}:{f b}"
+  s!"ok {showList e r.index} {showList toString r.nullCounts} {chunk} {r.chunkNulls}"
+
+/-- `def:rep:hex` or `def:rep:n` -/
+def parseEntry? (s : String) : Option (LevelStats.Entry (List Nat)) :=
+  match s.splitOn ":" with
+  | [d, r, v] =>
+    match parseNat? d, parseNat? r, parseOpt? parseHexN? v with
+    | some d, some r, some v => some ⟨d, r, v⟩
+    | _, _, _ => none
+  | _ => none
+
 def handle (toks : List String) : Option String :=
   match toks with
   | ["c05.truncmin", v, n] => some <|
@@ -95,7 +122,8 @@ def handle (toks : List String) : Option String :=
       match kind, parseList? parseHexN? vals with
       | "bytes", some xs => showPair hexN (boundsSwitch lexLt xs)
       | "flba", some xs => showPair hexN (bounds lexLt xs)
-      | "dec", some xs => showPair hexN (bounds (fun a b => cmpDecimal a b < 0) xs)
+      | "dec", some xs => showPair hexN (boundsDecimal xs)
+      | "decd", some xs => showPair hexN (boundsDecimalDict xs)
       | "int96", some xs => showPair hexN (bounds (fun a b => int96Less (i96Words a) (i96Words b)) xs)
       | _, _ => "bad-op"
   | ["c05.order", kind, vals] => some <|
@@ -117,6 +145,10 @@ def handle (toks : List String) : Option String :=
       | "int96" =>
         match parseList? parseHexN? vals with
         | some xs => s!"ok {orderOf (fun a b => int96Less (i96Words a) (i96Words b)) xs}"
+        | none => "bad-op"
+      | "dec" =>
+        match parseList? parseHexN? vals with
+        | some xs => s!"ok {orderOfDecimal xs}"
         | none => "bad-op"
       | _ => "bad-op"
   | ["c05.border", a, b] => some <|
@@ -147,6 +179,8 @@ def handle (toks : List String) : Option String :=
       match kind, parseNat? lim, parseList? (parsePage? parseHexN?) pages with
       | "bytes", some lim, some ps =>
         s!"ok {bytesIndexOrder lim ps} {showList hexN (bytesIndexMins lim ps)} {showList hexN (bytesIndexMaxs lim ps)}"
+      | "dec", some _, some ps =>
+        s!"ok {decimalIndexOrder ps} {showList hexN (decimalIndexMins ps)} {showList hexN (decimalIndexMaxs ps)}"
       | "int96", some _, some ps =>
         let o := bytesOrder (fun a b => int96Less (i96Words a) (i96Words b))
         let z := List.replicate 12 0
@@ -174,6 +208,30 @@ def handle (toks : List String) : Option String :=
       match bytesLt? kind, parseList? (parsePage? parseHexN?) pages with
       | some lt, some ps => showPair hexN (foldChunk (bytesOrder lt) ps)
       | _, _ => "bad-op"
+  | ["c05.record", kind, pages] => some <|
+    match numKind? kind with
+    | some k =>
+      match (pages.splitOn ";").mapM (parseList? (parseOpt? parseNat?)) with
+      | some ps =>
+        let ps := ps.map (fun p => p.map (fun v => v.map (BitVec.ofNat k.w)))
+        showRecord (showNat k.w) (writerRecord k.o ps [])
+      | none => "bad-op"
+    | none =>
+      match (pages.splitOn ";").mapM (parseList? (parseOpt? parseHexN?)) with
+      | some ps =>
+        match kind with
+        | "dec" => showRecord hexN (writerRecord (bytesOrder decLt) ps [])
+        | _ =>
+          match bytesLt? kind with
+          | some lt => showRecord hexN (writerRecord (bytesOrder lt) ps [])
+          | none => "bad-op"
+      | none => "bad-op"
+  | ["c05.levels", maxDef, maxRep, entries] => some <|
+    match parseNat? maxDef, parseNat? maxRep, parseList? parseEntry? entries with
+    | some md, some mr, some es =>
+      let r := LevelStats.pageLevelStats md mr es
+      s!"ok {r.numValues} {r.numNulls} {r.numRows} {showList toString r.defHist} {showList toString r.repHist} {r.unencoded}"
+    | _, _, _ => "bad-op"
   | ["c05.hist", maxLevel, pages] => some <|
     -- pages separated by `;`, levels by `,`, `-` = page without levels
     match parseNat? maxLevel, (pages.splitOn ";").mapM (parseList? parseNat?) with
